@@ -498,6 +498,12 @@ func Apply(dialect string, m *gm.Schema, e EditRef) ([]string, error) {
 	case "table-engine":
 		t.Engine = e.Arg
 		return []string{p + "ModifyAttr(Engine)"}, nil
+	case "table-engine-stated":
+		t.Engine = e.Arg
+		if strings.EqualFold(e.Arg, "InnoDB") {
+			return nil, nil
+		}
+		return []string{p + "ModifyAttr(Engine)"}, nil
 	case "table-autoinc":
 		t.AutoIncStart += 1000
 		return []string{p + "ModifyAttr(AutoIncrement)"}, nil
